@@ -108,11 +108,14 @@ _SEP = st.sampled_from([" ", " ", " ", "\n", "\t", "  ", "\n\n", "\n\t", " \n  "
 @st.composite
 def laid_out(draw, toks, style=None):
     n = len(toks)
-    style = style if style is not None else draw(st.integers(0, 4))
+    style = style if style is not None else draw(st.integers(0, 5))
     if style == 0:
         seps = [draw(st.sampled_from(["", "\n", "\n\n\t", "  "]))] + [" "] * (n - 1) + ["\n"]
     elif style == 1:
         seps = [draw(st.sampled_from(["", "\n"]))] + ["\n"] * (n - 1) + [""]
+    elif style == 5:
+        # the whole program on ONE line, no line break anywhere (not even a trailing one)
+        seps = [draw(st.sampled_from(["", " ", "\t"]))] + [draw(st.sampled_from([" ", " ", "  ", "\t"])) for _ in range(n - 1)] + [""]
     elif style == 4:
         # CRLF text: every line break is \r\n
         seps = [draw(st.sampled_from(["", "\r\n", "\r\n\t"]))] + [draw(st.sampled_from([" ", " ", "\r\n", "\r\n  ", "\t", "\r\n\r\n"]))
@@ -385,7 +388,99 @@ def redecl_check(ctx, case):
         ctx.sample({"source": text, "diagnostic": msg})
 
 
+# -- texts parsed through the expression / statement entry points (a located token may sit at offset 0) ----------
+
+@st.composite
+def entry_text(draw):
+    n = draw(st.integers(2, 6))
+    operands = [draw(st.sampled_from(["alpha", "b", "c2", "7", "0x1F", "2.5", "delta"])) for _ in range(n)]
+    ops = [draw(st.sampled_from(["+", "-", "*", "/", "<", "==", "&&", "||", "%"])) for _ in range(n - 1)]
+    toks = []
+    for k in range(n):
+        toks.append(operands[k])
+        if k < n - 1:
+            toks.append(ops[k])
+    kind = draw(st.sampled_from(["expression", "expression", "statement"]))
+    if kind == "statement":
+        toks = ["x", "="] + toks + [";"]
+    seps = [draw(st.sampled_from(["", "", " ", "\n", "\t"]))] + [draw(st.sampled_from([" ", " ", "\n", "  ", "\n\t"])) for _ in range(len(toks) - 1)] + [draw(st.sampled_from(["", "\n"]))]
+    r = M.layout(toks, seps)
+    assert r is not None
+    return (kind, r[0], r[1], toks)
+
+
+_ENTRY_PARSERS = {}
+
+
+def _entry_parser(kind):
+    """A parser for another start symbol.  PLY would write the tables of THAT grammar over nsl/parsetab.py (the cached
+    tables of the module grammar, shared by every process): table writing is switched off while it is built."""
+    if kind not in _ENTRY_PARSERS:
+        import ply.yacc as Y
+        from nsl.parser import NslParser, ParseEntryPoint
+        orig = Y.yacc
+
+        def no_write(*a, **k):
+            k["write_tables"] = False
+            k["debug"] = False
+            return orig(*a, **k)
+
+        Y.yacc = no_write
+        try:
+            _ENTRY_PARSERS[kind] = NslParser(ParseEntryPoint.Expression if kind == "expression" else ParseEntryPoint.Statement)
+        finally:
+            Y.yacc = orig
+    return _ENTRY_PARSERS[kind]
+
+
+def entry_check(ctx, case):
+    from nsl.parser import NslParser, ParseEntryPoint
+    from nsl.passes import UpdateLocations
+    kind, text, offsets, toks = case
+    ctx.count()
+    ctx.label("entry-point:" + kind)
+    if offsets[0] == 0:
+        ctx.label("located-token-at-offset-0")
+    starts = line_starts(text)
+    try:
+        with adapter.quiet():
+            p = _entry_parser(kind)
+            root = p.Parse(text)
+            UpdateLocations.GetPass().Process(root)
+    except BaseException as e:
+        if isinstance(e, KeyboardInterrupt):
+            raise
+        ctx.discard("entry-point-parse-failed:" + type(e).__name__)
+        return
+    if root is None:
+        ctx.discard("entry-point-parse-failed")
+        return
+    ctx.nontrivial(text)
+    last = len(toks) - 1 - (1 if kind == "statement" else 0)   # the `;` is not part of the expression statement's parts
+    want = (offsets[0], offsets[last] + len(toks[last]))
+    loc = _known(root)
+    got = None if loc is None else (loc.GetBegin(), loc.GetEnd())
+    if got != want:
+        ctx.fail("hull|entry-point-root", "the whole %s covers offsets %r = %r, its parts span %r = %r\n%r" % (
+            kind, got, text[got[0]:got[1]] if got else None, want, text[want[0]:want[1]], text), case)
+        return
+    for node, parent in _collect(root):
+        l = _known(node)
+        if l is None or parent is None:
+            continue
+        pl = _known(parent)
+        if pl is None or not (pl.GetBegin() <= l.GetBegin() and l.GetEnd() <= pl.GetEnd()):
+            ctx.fail("hull|child-outside-parent|entry-point", "%s %s is not inside its parent %s %s\n%r" % (
+                type(node).__name__, l, type(parent).__name__, pl, text), case)
+            return
+        if loc_to_range(str(l), starts) != (l.GetBegin(), l.GetEnd()):
+            ctx.fail("hull|str-mismatch|entry-point", "%s prints as %s\n%r" % (type(node).__name__, l, text), case)
+            return
+
+
 def run(R):
+    R.hyp("entry-point-texts", entry_text(), entry_check, examples=R.pick(60, 1500))
+    R.require("located-token-at-offset-0")
     def texts():
         out = []
         for n in range(0, 11):
